@@ -85,6 +85,7 @@ def run(pid, tier, families, t0, extra_assume=(), level="model_checking", strict
         cases = []
         r = C.run_tlc(mod, name, workers=8, gendir=gd, timeout=900 if tier == "quick" else 5400, heap="12g",
                       simulate=sim[0] if sim else None, depth=sim[1] if sim else None,
+                      max_replays=(sim[0] * 6 if sim else None),     # a simulation is stopped once it has given enough
                       on_replay=cases.append)
         cmds.append(r.cmd)
         if r.violation:
